@@ -1,12 +1,18 @@
 (* streams about debian-copyright (C17).  Record formats: docs/cones/C17.md.
-   VERIF_C17_MODEL=shipped evaluates the model of the code before proposed_fixes/C17-*.patch;
-   the default is the model of the patched code (the one the theorems are about). *)
+   VERIF_C17_MODEL selects the variant of the model: shipped | committed | fixed (default) | six
+   0/1 flags in the order of Copyright.variant.  vlib/props/c17.py sets it from what it finds in
+   the sources of the repository under test (which of the two proposed patches are applied). *)
 open Util
 open Base
 
 let variant () =
   match Sys.getenv_opt "VERIF_C17_MODEL" with
   | Some "shipped" -> Copyright.shipped
+  | Some "committed" -> Copyright.committed
+  | Some b when S.length b = 6 && not (S.exists (fun c -> c <> '0' && c <> '1') b) ->
+      let f i = b.[i] = '1' in
+      { Copyright.v_dotall = f 0; v_lossy_ws = f 1; v_lp_name = f 2; v_skip_header = f 3;
+        v_lenient = f 4; v_lossy_path = f 5 }
   | _ -> Copyright.fixed
 
 let lic_s (l : Copyright.license) = match l with
@@ -19,8 +25,11 @@ let bit (r : bool res) = match r with
 let short (f : 'a -> string) (r : 'a res) = match r with
   | Ok a -> f a | Err _ -> "E" | Panic _ -> "P" | OutOfFuel -> "H"
 
-(* a path field "!<hex>" is a path that is not valid UTF-8 (the harness builds it from raw bytes) *)
+(* a path field "!<hex raw bytes>:<hex of its lossy conversion>" is a path that is not valid UTF-8:
+   the harness builds the path from the raw bytes; the model of a variant with v_lossy_path looks
+   the converted string up, the model of one without takes the to_str().unwrap() panic *)
 let is_raw (p : string) = S.length p > 0 && p.[0] = '!'
+let lossy_of (p : string) = str_of_hex (L.nth (S.split_on_char ':' p) 1)
 
 let k s = L.map n_of_int (L.map Char.code (L.of_seq (S.to_seq s)))
 
@@ -31,8 +40,8 @@ let glob (fs : string list) : string =
   let para = [ (k "Files", pat); (k "Copyright", k "c"); (k "License", k "l") ] in
   match Copyright.ly_files_para v para with
   | Ok fp -> "m=" ^ cat "" (L.map (fun p ->
-      if is_raw p then bit (Copyright.ly_matches_nonutf8 fp)
-      else bit (Copyright.ly_matches v fp (str_of_hex p))) (L.tl fs))
+      if is_raw p && not v.Copyright.v_lossy_path then bit (Copyright.ly_matches_nonutf8 v fp)
+      else bit (Copyright.ly_matches v fp (if is_raw p then lossy_of p else str_of_hex p))) (L.tl fs))
   | _ -> "ERR"
 
 let ll_fp_s (p : (BinNums.coq_N list * BinNums.coq_N list) list) =
@@ -48,7 +57,9 @@ let copyright (fs : string list) : string =
   let text = str_of_hex (L.nth fs 0) in
   let kk = int_of_string (L.nth fs 1) in
   let rest = drop 2 fs in
-  let paths = L.map (fun p -> if is_raw p then None else Some (str_of_hex p)) (take kk rest) in
+  let paths = L.map (fun p ->
+      if is_raw p then (if v.Copyright.v_lossy_path then Some (lossy_of p) else None)
+      else Some (str_of_hex p)) (take kk rest) in
   let names = L.map str_of_hex (drop kk rest) in
   let rx = match Copyright.ll_from_str_relaxed text with
     | Ok (_, n) -> string_of_int (int_of_nat n)
@@ -68,7 +79,7 @@ let copyright (fs : string list) : string =
           let m, f, l = match path with
             | Some path -> (fun p -> Copyright.ll_matches v p path), Copyright.ll_find_files v d path,
                            Copyright.ll_find_license_for_file v d path
-            | None -> Copyright.ll_matches_nonutf8, Copyright.ll_find_files_nonutf8 v d,
+            | None -> Copyright.ll_matches_nonutf8 v, Copyright.ll_find_files_nonutf8 v d,
                       Copyright.ll_find_license_for_file_nonutf8 v d in
           let bits = cat "" (L.map (fun p -> bit (m p)) files) in
           let ff = short (function None -> "-" | Some (_, p) -> ll_fp_s p) f in
@@ -86,8 +97,8 @@ let copyright (fs : string list) : string =
           let m, f, l = match path with
             | Some path -> (fun fp -> Copyright.ly_matches v fp path), Copyright.ly_find_files v c path,
                            Copyright.ly_find_license_for_file v c path
-            | None -> Copyright.ly_matches_nonutf8, Copyright.ly_find_files_nonutf8 c,
-                      Copyright.ly_find_license_for_file_nonutf8 c in
+            | None -> Copyright.ly_matches_nonutf8 v, Copyright.ly_find_files_nonutf8 v c,
+                      Copyright.ly_find_license_for_file_nonutf8 v c in
           let bits = cat "" (L.map (fun fp -> bit (m fp)) files) in
           let ff = short (function None -> "-" | Some (i, _) -> string_of_int (int_of_nat i)) f in
           let fl = short opt_lic_s l in
